@@ -6,6 +6,34 @@ use crate::term_json::{build, bytes_json, bytes_of, denote};
 use erltf::{AtomCache, OwnedTerm};
 use serde_json::{Value, json};
 
+/// C10 across a distribution header: spec-written frames with node-local identifiers -> decode_with_atom_cache -> encode
+pub fn run_local(args: &[String]) -> i32 {
+    // dh-local <cases.ndjson> <out.ndjson>
+    quiet_panics();
+    let cases = read_ndjson(&args[0]);
+    let mut w = NdWriter::create(&args[1]);
+    for (i, c) in cases.iter().enumerate() {
+        let bytes = bytes_of(&c["bytes"]);
+        let r = catch(|| {
+            let mut cache = AtomCache::new();
+            erltf::decode_with_atom_cache(&bytes, &mut cache)
+        });
+        let o = match r {
+            Ok(Ok((_ctl, Some(p)))) => match catch(|| erltf::encode(&p)) {
+                Ok(Ok(b)) => json!({"i": i, "ok": true, "payload": denote(&p), "reencoded": bytes_json(&b)}),
+                Ok(Err(e)) => json!({"i": i, "ok": false, "err": format!("encode: {e:?}")}),
+                Err(p) => json!({"i": i, "ok": false, "err": format!("encode panicked: {p}")}),
+            },
+            Ok(Ok((_, None))) => json!({"i": i, "ok": false, "err": "no payload returned"}),
+            Ok(Err(e)) => json!({"i": i, "ok": false, "err": format!("{e:?}")}),
+            Err(p) => json!({"i": i, "ok": false, "err": format!("panic: {p}")}),
+        };
+        w.put(&o);
+    }
+    w.finish();
+    0
+}
+
 pub fn run_encode(args: &[String]) -> i32 {
     // dh-encode <cases.ndjson> <out.ndjson>
     quiet_panics();
